@@ -17,6 +17,7 @@ class FakeNet:
     def __init__(self):
         self.bound = {}        # port -> FakeListenSocket
         self.conn_n = 0
+        self.conns = []        # every connection ever made
 
     def connect(self, port, peer_ip='10.0.0.1'):
         """Client side connect.  Returns SimConn or raises
@@ -28,7 +29,13 @@ class FakeNet:
         self.conn_n += 1
         c = SimConn(self.conn_n, (peer_ip, 40000 + self.conn_n))
         ls.pending.append(c)
+        self.conns.append(c)
         return c
+
+    def quiet(self):
+        """No connection is waiting to be accepted or still being handled
+        by the listening side."""
+        return all(c.server_closed or c.reset for c in self.conns)
 
 
 NET = None
